@@ -280,14 +280,23 @@ class Check(PropertyCheck):
                   "(split at commas + str.strip with the interpreter's whitespace table), CutSpec, Marker (emoji table regenerated from "
                   "mitmproxy/utils/emoji.py), Choice (its options command's result as a parameter) and parameter DEFAULTS "
                   "(bind + apply_defaults) are transcribed and tied too: str_seq_arg, cut_spec_arg, marker_arg_exact, choice_arg_exact, "
-                  "split_comma_join, execute_without_defaults, defaults_fill_exactly_the_missing, execute_with_defaults_delivers. Model tied to the code through CommandManager.execute on six "
-                  "registered test commands, every line executed 1–3 times on one manager.")
+                  "split_comma_join, execute_without_defaults, defaults_fill_exactly_the_missing, execute_with_defaults_delivers. Round-6 owner fixes: the command table of the driver is `harnessCmds` in the model; executeD_depends_on_looked_up_name, "
+                  "executeD_on_plain_entry, harness_table_plain, driver_executes_executeSig and arg_unchanged_on_driver_table carry the executeSig theorems "
+                  "to `executeD … harnessCmds`, the function compared with mitmproxy; the EXACT str guard: deliver_iff (the command receives `a` iff "
+                  "argOkX), argOk_implies_argOkX, arg_unchanged_exact_partial, arg_unchanged_exact_iff; cmdline_splits_at_unquoted_ws joins the two "
+                  "sentences of the statement; str_parse_fuel_adequate. CLAUSE-MAP LEMMAS, not evidence (each restates one line of a definition by rfl): bool_arg_exact, "
+                  "int_arg_is_python_int, str_seq_arg, cut_spec_arg, marker_arg_exact, choice_arg_exact, execute_is_a_function_of_the_parse. "
+                  "Model tied to the code through CommandManager.execute on 17 registered test commands, every line executed 1–3 times on one "
+                  "manager over three routes; the specification functions refSplit / mergeAdjacent / noAdjacent are tied to the oracle's ref_split "
+                  "by the driver op `refsplit` on every case.")
     level_note = ("PARTIAL: the full statement is false for the code (three recorded findings with exact classifiers, see known_selftest); "
                   "proved under the guards named above. trusted: Lean kernel; differential tie (every execution's outcome, quote(), token "
                   "list); the pyparsing grammar, the escape regex and codecs.unicode-escape are transcribed by hand into Model/C45.lean "
                   "(validated by the tie, not verified against pyparsing/re/codecs); the Unicode name database of \\N{…} stays a parameter "
                   "(four names in the driver); the conversions that need the manager's state or the file system (Cmd, Flow/Flows via the view, Data, path "
-                  "completion) are not modelled; a Choice's options are a parameter (the tie registers the options command); $HOME and the password database are parameters of the "
+                  "completion) are not modelled; a Choice's options are a parameter (the tie registers the options command); `execute`, `executeSig`, `executeT`, `executeToks` "
+                  "are not run by the driver — they reach it through the bridge theorems named in level_text; the statelessness of the parse cache "
+                  "is carried by the re-run plans of the tie, not by a theorem; str_parse_fuel_adequate: strParse's fuel (the text length) never runs out, none = refused escape; $HOME and the password database are parameters of the "
                   "path conversion (the tie fixes HOME=/h/me/ and the entry root→/root).")
     technique = "Lean 4 proof (induction over strings / argument lists) + differential correspondence through CommandManager.execute"
     rule = ("(a) every string of length <=3 (thorough <=4) over {a, space, \", ', \\, n, x} as one argument of a str-typed and of a "
@@ -613,7 +622,7 @@ class Check(PropertyCheck):
         else:
             line, extra = case["line"], []
         lines = ["exec %s" % enc(line)] * sum(1 for st in case.get("plan", ["x"]) if st == "x")
-        return lines + extra + ["lex %s" % enc(line)]
+        return lines + extra + ["lex %s" % enc(line), "refsplit %s" % enc(line)]
 
     def model_obs(self, case, replies):
         return replies
@@ -630,7 +639,12 @@ class Check(PropertyCheck):
         for ex in obs["execs"]:
             if ex[0] == "call": firsts.append(" ".join(["call", enc(ex[1]), str(len(ex[2]))] + [self._show(a) for a in ex[2]]))
             else: firsts.append(ex[0])
-        return firsts + [enc(q) for q in obs["quoted"]] + [" ".join([str(len(obs["tokens"]))] + [enc(t) for t in obs["tokens"]])]
+        # last line: the oracle's own reference split (pieces between unquoted whitespace, "no quote touches a non-blank"),
+        # which the model's specification functions refSplit / mergeAdjacent∘lex / noAdjacent∘lex must reproduce
+        segs, adj = ref_split(obs["line"])
+        pieces = [str(len(segs))] + [enc(x) for x in segs]
+        return firsts + [enc(q) for q in obs["quoted"]] + [" ".join([str(len(obs["tokens"]))] + [enc(t) for t in obs["tokens"]]),
+                                                            " ".join(["0" if adj else "1"] + pieces + pieces)]
 
     def classify(self, case, obs):
         plan = "".join(case.get("plan", ["x"])) + "/" + case.get("route", "m")
